@@ -86,7 +86,7 @@ func HarnessConnEnd() {
 		verif.Assert(h.ctxs[i] != nil && h.ctxs[i].Err() == nil, "handler-context-live-while-connected")
 	}
 	// whatever else the peer sent before (odd but harmless frames), the end of the connection is noticed
-	switch verif.Choice("odd_frame_before_end", 6) {
+	switch verif.Choice("odd_frame_before_end", 7) {
 	case 1:
 		pc.Send([]byte{})
 	case 2:
@@ -97,6 +97,8 @@ func HarnessConnEnd() {
 		pc.Send([]byte("  \n"))
 	case 5:
 		pc.Send([]byte(`{"jsonrpc":"2.0","id":99,"result":1}`))
+	case 6:
+		pc.SendPartial() // the beginning of a message that never completes
 	}
 	verif.Quiesce()
 	cause := verif.Choice("cause", 3)
